@@ -1,5 +1,5 @@
 (* Entry points of the executable model used by the correspondence check (extracted). *)
-From RP Require Import Base Stream Target Socks Http Frames Frag MiluSyntax MiluParser.
+From RP Require Import Base Stream Target Socks Http Frames Frag MiluSyntax MiluParser MiluDoc MiluEval.
 From RP.Gen Require Gen_ladder.
 
 Definition HFUEL : nat := 4000.   (* header lines per HTTP head in generated cases are far fewer *)
@@ -29,3 +29,14 @@ Definition x_top_rule : String.string := List.last Gen_ladder.op0_alternatives S
 Definition x_milu_parse (src : bytes) : pres expr :=
   parse Gen_ladder.levels Gen_ladder.parse2_table Gen_ladder.parse1_table Gen_ladder.unary_tags
         x_top_rule Gen_ladder.ternary_cond_rule src.
+
+(* checker + evaluator as the proxy uses them for a rule filter (Filter::validate / evaluate) *)
+Definition EVAL_FUEL (e : expr) : nat := 4000.
+Definition x_type_of regex cidr (rq : request) (e : expr) : outcome ty :=
+  type_of regex cidr rq (EVAL_FUEL e) [] e.
+Definition x_real_type_of regex cidr (rq : request) (e : expr) : outcome ty :=
+  real_type_of regex cidr rq (EVAL_FUEL e) [] e.
+Definition x_real_value_of regex cidr (rq : request) (e : expr) : outcome value :=
+  real_value_of regex cidr rq (EVAL_FUEL e) [] e.
+Definition x_cidr_contains := cidr_contains.
+Definition x_cidr_net_ok := cidr_net_ok.
